@@ -6,6 +6,7 @@ package raft
 
 import (
 	"context"
+	"fmt"
 	"net"
 	"time"
 
@@ -263,7 +264,134 @@ func (a *admin) transfer() {
 	run.led.onTransferReturn(rec, task, done)
 }
 
-func (a *admin) member() {}
+// getInfo asks a node for its status through the task API.
+func (a *admin) getInfo(ni *nodeInc) (Info, bool) {
+	t := GetInfo()
+	if !a.submit(ni, t, "info", 20*a.run.cfg.HB) || t.Err() != nil {
+		return Info{}, false
+	}
+	info, ok := t.Result().(Info)
+	return info, ok
+}
+
+// member submits a (legal or illegal) membership change derived from the
+// configuration a node reports.
+func (a *admin) member() {
+	run := a.run
+	t := run.tape
+	ni := run.pickClientTarget()
+	if ni == nil {
+		return
+	}
+	info, ok := a.getInfo(ni)
+	if !ok || !info.Configs.IsBootstrapped() {
+		return
+	}
+	conf := info.Configs.Latest
+	var ids []uint64
+	for id := uint64(1); id <= uint64(len(run.nodes)); id++ {
+		if _, ok := conf.Nodes[id]; ok {
+			ids = append(ids, id)
+		}
+	}
+	pickMember := func(want func(Node) bool) (uint64, bool) {
+		var c []uint64
+		for _, id := range ids {
+			if want(conf.Nodes[id]) {
+				c = append(c, id)
+			}
+		}
+		if len(c) == 0 {
+			return 0, false
+		}
+		return c[t.Choose(rt.StPlan, len(c))], true
+	}
+	nact := 1 + t.Choose(rt.StPlan, 2)
+	desc := ""
+	for k := 0; k < nact; k++ {
+		switch t.Choose(rt.StPlan, 10) {
+		case 0, 1: // add a node that is not a member, with or without promotion
+			var spare []uint64
+			for id := uint64(1); id <= uint64(len(run.nodes)); id++ {
+				if _, ok := conf.Nodes[id]; !ok {
+					spare = append(spare, id)
+				}
+			}
+			if len(spare) > 0 {
+				id := spare[t.Choose(rt.StPlan, len(spare))]
+				_ = conf.AddNonvoter(id, nodeAddr(id), t.Chance(rt.StPlan, 1, 2))
+				desc += fmt.Sprintf("add%d ", id)
+			}
+		case 2, 3:
+			if id, ok := pickMember(func(n Node) bool { return !n.Voter }); ok {
+				_ = conf.SetAction(id, Promote)
+				desc += fmt.Sprintf("promote%d ", id)
+			}
+		case 4, 5:
+			if id, ok := pickMember(func(n Node) bool { return n.Voter }); ok {
+				_ = conf.SetAction(id, Demote)
+				desc += fmt.Sprintf("demote%d ", id)
+			}
+		case 6:
+			if id, ok := pickMember(func(n Node) bool { return true }); ok {
+				_ = conf.SetAction(id, Remove)
+				desc += fmt.Sprintf("remove%d ", id)
+			}
+		case 7:
+			if id, ok := pickMember(func(n Node) bool { return true }); ok {
+				_ = conf.SetAction(id, ForceRemove)
+				desc += fmt.Sprintf("forceremove%d ", id)
+			}
+		case 8: // stale or future index
+			if t.Chance(rt.StPlan, 1, 2) && conf.Index > 0 {
+				conf.Index--
+			} else {
+				conf.Index++
+			}
+			desc += "badindex "
+		case 9: // requests the API documents as invalid
+			switch t.Choose(rt.StPlan, 4) {
+			case 0:
+				if id, ok := pickMember(func(n Node) bool { return true }); ok {
+					n := conf.Nodes[id]
+					n.Voter = !n.Voter
+					conf.Nodes[id] = n
+					desc += fmt.Sprintf("flipvoter%d ", id)
+				}
+			case 1:
+				if id, ok := pickMember(func(n Node) bool { return true }); ok {
+					delete(conf.Nodes, id)
+					desc += fmt.Sprintf("delete%d ", id)
+				}
+			case 2:
+				for _, id := range ids {
+					n := conf.Nodes[id]
+					if n.Voter {
+						n.Action = Remove
+						conf.Nodes[id] = n
+					}
+				}
+				desc += "removeallvoters "
+			case 3:
+				for id := uint64(1); id <= uint64(len(run.nodes)); id++ {
+					if _, ok := conf.Nodes[id]; !ok {
+						conf.Nodes[id] = Node{ID: id, Addr: nodeAddr(id), Voter: true}
+						desc += fmt.Sprintf("addvoter%d ", id)
+						break
+					}
+				}
+			}
+		}
+	}
+	task := ChangeConfig(conf)
+	rec := run.led.onMemberInvoke(ni, conf, desc)
+	done := a.submit(ni, task, "changeconfig", 40*run.cfg.HB)
+	run.led.onMemberReturn(rec, task, done)
+	if done && task.Err() == nil && t.Chance(rt.StPlan, 1, 3) {
+		w := WaitForStableConfig()
+		a.submit(ni, w, "waitstable", 40*run.cfg.HB)
+	}
+}
 
 func (a *admin) snapshot() {
 	run := a.run
